@@ -1,12 +1,1038 @@
 package main
 
+// Core programs: the MiniGo fragment that is modelled in Lean (lean/NeoModel/Model/MiniGo.lean).
+// The AST below is the Lean AST; it is printed as Go source (plain + checked), and serialised in prefix
+// form for the Lean driver, which answers with the bytes of ITS compiler for the same program.
+
 import (
+	"fmt"
+	"strings"
+
 	"verif/harness/internal/hx"
 	"verif/harness/internal/prng"
 )
 
-type CoreProg struct{}
+type cExpr struct {
+	k    string // L T F V P N ! B C
+	n    uint64
+	x    string
+	op   string
+	kids []*cExpr
+	cst  bool
+	ty   Kind
+}
 
-func genCoreProgram(r *prng.R, k int, ntuples int) *Prog { return genDialectProgram(r, k, ntuples) }
+type cStmt struct {
+	k     string // skip ; := = op= ++ -- var call if for ret brk cont blk discard
+	x     string
+	op    string
+	ty    Kind
+	e     *cExpr // may be nil (var without init, ret without value, for without cond)
+	kids  []*cStmt
+	elseK string // none else elif
+}
 
-func emitCore(o *hx.Out, p *Prog, cr *compRes, gores map[string]goRes) {}
+type cFunc struct {
+	name   string
+	params []string
+	ptypes []Kind
+	ret    Kind // KInt, KBool, KVoid
+	body   *cStmt
+}
+
+type CoreProg struct {
+	funcs []*cFunc
+}
+
+var binPrec = map[string]int{"mul": 5, "div": 5, "mod": 5, "add": 4, "sub": 4, "lt": 3, "le": 3, "gt": 3, "ge": 3, "eq": 3, "ne": 3, "eqb": 3, "neb": 3, "land": 2, "lor": 1}
+var binSym = map[string]string{"mul": "*", "div": "/", "mod": "%", "add": "+", "sub": "-", "lt": "<", "le": "<=", "gt": ">", "ge": ">=", "eq": "==", "ne": "!=", "eqb": "==", "neb": "!=", "land": "&&", "lor": "||"}
+var binCk = map[string]string{"mul": "ck_mul", "div": "ck_div", "mod": "ck_mod", "add": "ck_add", "sub": "ck_sub"}
+
+// ---- printing
+
+func (e *cExpr) src(checked bool) string {
+	switch e.k {
+	case "L":
+		return fmt.Sprint(e.n)
+	case "T":
+		return "true"
+	case "F":
+		return "false"
+	case "V":
+		return e.x
+	case "P":
+		return "(" + e.kids[0].src(checked) + ")"
+	case "N":
+		if checked {
+			return "ck_neg(" + e.kids[0].src(checked) + ")"
+		}
+		return "-" + e.kids[0].src(checked)
+	case "!":
+		return "!" + e.kids[0].src(checked)
+	case "B":
+		if ck, ok := binCk[e.op]; ok && checked {
+			return ck + "(" + e.kids[0].src(checked) + ", " + e.kids[1].src(checked) + ")"
+		}
+		return e.kids[0].src(checked) + " " + binSym[e.op] + " " + e.kids[1].src(checked)
+	case "C":
+		var as []string
+		for _, a := range e.kids {
+			as = append(as, a.src(checked))
+		}
+		return e.x + "(" + strings.Join(as, ", ") + ")"
+	}
+	panic("bad expr " + e.k)
+}
+
+func (e *cExpr) tokens(b *[]string) {
+	switch e.k {
+	case "L":
+		*b = append(*b, "L", fmt.Sprint(e.n))
+	case "T", "F":
+		*b = append(*b, e.k)
+	case "V":
+		*b = append(*b, "V", e.x)
+	case "P", "N", "!":
+		*b = append(*b, e.k)
+		e.kids[0].tokens(b)
+	case "B":
+		*b = append(*b, "B", e.op)
+		e.kids[0].tokens(b)
+		e.kids[1].tokens(b)
+	case "C":
+		*b = append(*b, fmt.Sprintf("C%d", len(e.kids)), e.x)
+		for _, a := range e.kids {
+			a.tokens(b)
+		}
+	}
+}
+
+func tyName(k Kind) string {
+	if k == KBool {
+		return "bool"
+	}
+	return "int"
+}
+
+func (s *cStmt) src(b *strings.Builder, checked bool) {
+	switch s.k {
+	case "skip":
+	case ";":
+		s.kids[0].src(b, checked)
+		s.kids[1].src(b, checked)
+	case ":=":
+		fmt.Fprintf(b, "%s := %s\n", s.x, s.e.src(checked))
+	case "=":
+		fmt.Fprintf(b, "%s = %s\n", s.x, s.e.src(checked))
+	case "op=":
+		if checked {
+			fmt.Fprintf(b, "%s = %s(%s, %s)\n", s.x, binCk[s.op], s.x, s.e.src(checked))
+		} else {
+			fmt.Fprintf(b, "%s %s= %s\n", s.x, binSym[s.op], s.e.src(checked))
+		}
+	case "++":
+		if checked {
+			fmt.Fprintf(b, "%s = ck_add(%s, 1)\n", s.x, s.x)
+		} else {
+			fmt.Fprintf(b, "%s++\n", s.x)
+		}
+	case "--":
+		if checked {
+			fmt.Fprintf(b, "%s = ck_sub(%s, 1)\n", s.x, s.x)
+		} else {
+			fmt.Fprintf(b, "%s--\n", s.x)
+		}
+	case "var":
+		if s.e == nil {
+			fmt.Fprintf(b, "var %s %s\n", s.x, tyName(s.ty))
+		} else {
+			fmt.Fprintf(b, "var %s %s = %s\n", s.x, tyName(s.ty), s.e.src(checked))
+		}
+	case "call":
+		fmt.Fprintf(b, "%s\n", s.e.src(checked))
+	case "discard":
+		fmt.Fprintf(b, "_ = %s\n", s.e.src(checked))
+	case "if":
+		fmt.Fprintf(b, "if %s {\n", s.e.src(checked))
+		s.kids[0].src(b, checked)
+		switch s.elseK {
+		case "none":
+			b.WriteString("}\n")
+		case "else":
+			b.WriteString("} else {\n")
+			s.kids[1].src(b, checked)
+			b.WriteString("}\n")
+		case "elif":
+			b.WriteString("} else ")
+			s.kids[1].src(b, checked)
+		}
+	case "for":
+		init, post, body := s.kids[0], s.kids[1], s.kids[2]
+		hdr := func(st *cStmt) string {
+			var sb strings.Builder
+			st.src(&sb, checked)
+			return strings.TrimSuffix(sb.String(), "\n")
+		}
+		switch {
+		case init.k == "skip" && post.k == "skip" && s.e == nil:
+			b.WriteString("for {\n")
+		case init.k == "skip" && post.k == "skip":
+			fmt.Fprintf(b, "for %s {\n", s.e.src(checked))
+		default:
+			c := ""
+			if s.e != nil {
+				c = s.e.src(checked)
+			}
+			fmt.Fprintf(b, "for %s; %s; %s {\n", hdr(init), c, hdr(post))
+		}
+		if checked {
+			b.WriteString("ck_step()\n")
+		}
+		body.src(b, checked)
+		b.WriteString("}\n")
+	case "ret":
+		if s.e == nil {
+			b.WriteString("return\n")
+		} else {
+			fmt.Fprintf(b, "return %s\n", s.e.src(checked))
+		}
+	case "brk":
+		b.WriteString("break\n")
+	case "cont":
+		b.WriteString("continue\n")
+	case "blk":
+		b.WriteString("{\n")
+		s.kids[0].src(b, checked)
+		b.WriteString("}\n")
+	default:
+		panic("bad stmt " + s.k)
+	}
+}
+
+func optExprTokens(e *cExpr, b *[]string) {
+	if e == nil {
+		*b = append(*b, "none")
+		return
+	}
+	*b = append(*b, "some")
+	e.tokens(b)
+}
+
+func (s *cStmt) tokens(b *[]string) {
+	switch s.k {
+	case "skip", "brk", "cont":
+		*b = append(*b, s.k)
+	case ";":
+		*b = append(*b, ";")
+		s.kids[0].tokens(b)
+		s.kids[1].tokens(b)
+	case ":=", "=":
+		*b = append(*b, s.k, s.x)
+		s.e.tokens(b)
+	case "op=":
+		*b = append(*b, "op=", s.x, s.op)
+		s.e.tokens(b)
+	case "++", "--":
+		*b = append(*b, s.k, s.x)
+	case "var":
+		*b = append(*b, "var", s.x, tyName(s.ty))
+		optExprTokens(s.e, b)
+	case "call":
+		*b = append(*b, "call")
+		s.e.tokens(b)
+	case "discard":
+		*b = append(*b, "discard")
+		s.e.tokens(b)
+	case "if":
+		*b = append(*b, "if")
+		s.e.tokens(b)
+		s.kids[0].tokens(b)
+		*b = append(*b, s.elseK)
+		if s.elseK != "none" {
+			s.kids[1].tokens(b)
+		}
+	case "for":
+		*b = append(*b, "for")
+		s.kids[0].tokens(b)
+		optExprTokens(s.e, b)
+		s.kids[1].tokens(b)
+		s.kids[2].tokens(b)
+	case "ret":
+		*b = append(*b, "ret")
+		optExprTokens(s.e, b)
+	case "blk":
+		*b = append(*b, "blk")
+		s.kids[0].tokens(b)
+	}
+}
+
+func (f *cFunc) src(checked bool, rn func(string) string) string {
+	var b strings.Builder
+	var ps []string
+	for i, p := range f.params {
+		ps = append(ps, p+" "+tyName(f.ptypes[i]))
+	}
+	ret := ""
+	if f.ret != KVoid {
+		ret = " " + tyName(f.ret)
+	}
+	fmt.Fprintf(&b, "func %s(%s)%s {\n", f.name, strings.Join(ps, ", "), ret)
+	if checked {
+		b.WriteString("ck_step()\n")
+	}
+	f.body.src(&b, checked)
+	b.WriteString("}\n")
+	return rn(b.String())
+}
+
+func (p *CoreProg) tokens(rn func(string) string) string {
+	b := []string{"prog", fmt.Sprint(len(p.funcs))}
+	for _, f := range p.funcs {
+		b = append(b, "func", f.name, fmt.Sprint(len(f.params)))
+		b = append(b, f.params...)
+		if f.ret == KVoid {
+			b = append(b, "void")
+		} else {
+			b = append(b, "res")
+		}
+		f.body.tokens(&b)
+	}
+	return rn(strings.Join(b, " "))
+}
+
+// ---- generation
+
+type cVar struct {
+	name string
+	ty   Kind
+	ro   bool
+	used bool
+}
+
+type cGen struct {
+	r      *prng.R
+	feat   map[string]int
+	scopes [][]*cVar
+	funcs  []*cFunc // callable
+	cur    *cFunc
+	nvar   int
+	inLoop int
+	budget int
+	depth  int
+	selfOK bool
+	called map[string]bool
+	calls  map[string]map[string]bool // caller -> callees
+}
+
+func (g *cGen) f(s string) { g.feat["core:"+s]++ }
+
+func (g *cGen) vars(ty Kind, writable bool) []*cVar {
+	var res []*cVar
+	seen := map[string]bool{}
+	for i := len(g.scopes) - 1; i >= 0; i-- {
+		for j := len(g.scopes[i]) - 1; j >= 0; j-- {
+			v := g.scopes[i][j]
+			if seen[v.name] {
+				continue
+			}
+			seen[v.name] = true
+			if v.ty == ty && (!writable || !v.ro) {
+				res = append(res, v)
+			}
+		}
+	}
+	return res
+}
+
+func (g *cGen) pick(ty Kind, writable bool) *cVar {
+	vs := g.vars(ty, writable)
+	if len(vs) == 0 {
+		return nil
+	}
+	return vs[g.r.Intn(len(vs))]
+}
+
+func lit(n uint64) *cExpr { return &cExpr{k: "L", n: n, cst: true, ty: KInt} }
+func (g *cGen) useVar(v *cVar) *cExpr {
+	v.used = true
+	return &cExpr{k: "V", x: v.name, ty: v.ty}
+}
+func paren(e *cExpr) *cExpr { return &cExpr{k: "P", kids: []*cExpr{e}, cst: e.cst, ty: e.ty} }
+
+func prec(e *cExpr) int {
+	if e.k == "B" {
+		return binPrec[e.op]
+	}
+	return 6
+}
+
+func mkBin(op string, a, b *cExpr, ty Kind) *cExpr {
+	p := binPrec[op]
+	if prec(a) < p {
+		a = paren(a)
+	}
+	if prec(b) <= p {
+		b = paren(b)
+	}
+	return &cExpr{k: "B", op: op, kids: []*cExpr{a, b}, cst: a.cst && b.cst, ty: ty}
+}
+
+func mkUn(k string, a *cExpr) *cExpr {
+	if a.k == "B" || a.k == "N" {
+		a = paren(a)
+	}
+	return &cExpr{k: k, kids: []*cExpr{a}, cst: a.cst, ty: a.ty}
+}
+
+var coreLits = []uint64{0, 1, 2, 3, 4, 5, 7, 8, 10, 15, 16, 17, 100, 127, 128, 129, 255, 256, 1000, 32767, 32768, 65535, 65536, 1 << 31, 1<<31 - 1, 1 << 32, 1<<63 - 1, 1<<62 + 5}
+
+func (g *cGen) intLit() *cExpr {
+	var e *cExpr
+	if g.r.Chance(1, 4) {
+		e = lit(uint64(g.r.Intn(300)))
+	} else {
+		e = lit(coreLits[g.r.Intn(len(coreLits))])
+	}
+	if g.r.Chance(1, 5) {
+		e = mkUn("N", e)
+	}
+	return e
+}
+
+// avoidConst makes sure a binary node has a non-constant operand (the Go type checker folds constant
+// expressions, the Lean compiler does not model that).
+func (g *cGen) avoidConst(a, b *cExpr, ty Kind) (*cExpr, *cExpr, bool) {
+	if !(a.cst && b.cst) {
+		return a, b, true
+	}
+	if v := g.pick(ty, false); v != nil {
+		return g.useVar(v), b, true
+	}
+	return a, b, false
+}
+
+func (g *cGen) genInt(d int) *cExpr {
+	if d <= 0 || g.r.Chance(1, 4) {
+		if v := g.pick(KInt, false); v != nil && g.r.Chance(3, 4) {
+			return g.useVar(v)
+		}
+		return g.intLit()
+	}
+	switch g.r.Weighted([]int{12, 2, 2, 1}) {
+	case 0:
+		ops := []string{"add", "sub", "mul", "div", "mod", "add", "sub", "mul"}
+		op := ops[g.r.Intn(len(ops))]
+		a, b, ok := g.avoidConst(g.genInt(d-1), g.genInt(d-1), KInt)
+		if !ok {
+			return a
+		}
+		if (op == "div" || op == "mod") && b.cst {
+			b = lit(uint64(g.r.Range(1, 9))) // Go rejects division by a constant zero
+		}
+		g.f("expr:" + op)
+		e := mkBin(op, a, b, KInt)
+		if g.r.Chance(1, 8) {
+			g.f("expr:extra-paren")
+			return paren(e)
+		}
+		return e
+	case 1:
+		g.f("expr:neg")
+		return mkUn("N", g.genInt(d-1))
+	case 2:
+		if e := g.genCall(KInt, d); e != nil {
+			return e
+		}
+		return g.genInt(d - 1)
+	default:
+		g.f("expr:extra-paren")
+		return paren(g.genInt(d - 1))
+	}
+}
+
+func (g *cGen) genBool(d int) *cExpr {
+	if d <= 0 || g.r.Chance(1, 6) {
+		if v := g.pick(KBool, false); v != nil && g.r.Chance(3, 4) {
+			return g.useVar(v)
+		}
+		if g.r.Bool() {
+			return &cExpr{k: "T", cst: true, ty: KBool}
+		}
+		return &cExpr{k: "F", cst: true, ty: KBool}
+	}
+	switch g.r.Weighted([]int{10, 5, 5, 3, 2, 1, 1}) {
+	case 0:
+		ops := []string{"lt", "le", "gt", "ge", "eq", "ne"}
+		op := ops[g.r.Intn(len(ops))]
+		a, b, ok := g.avoidConst(g.genInt(d-1), g.genInt(d-1), KInt)
+		if !ok {
+			return &cExpr{k: "T", cst: true, ty: KBool}
+		}
+		g.f("expr:" + op)
+		return mkBin(op, a, b, KBool)
+	case 1:
+		a, b, ok := g.avoidConst(g.genBool(d-1), g.genBool(d-1), KBool)
+		if !ok {
+			return a
+		}
+		g.f("expr:land")
+		return mkBin("land", a, b, KBool)
+	case 2:
+		a, b, ok := g.avoidConst(g.genBool(d-1), g.genBool(d-1), KBool)
+		if !ok {
+			return a
+		}
+		g.f("expr:lor")
+		return mkBin("lor", a, b, KBool)
+	case 3:
+		g.f("expr:not")
+		return mkUn("!", g.genBool(d-1))
+	case 4:
+		op := "eqb"
+		if g.r.Bool() {
+			op = "neb"
+		}
+		a, b, ok := g.avoidConst(g.genBool(d-1), g.genBool(d-1), KBool)
+		if !ok {
+			return a
+		}
+		g.f("expr:" + op)
+		return mkBin(op, a, b, KBool)
+	case 5:
+		if e := g.genCall(KBool, d); e != nil {
+			return e
+		}
+		return g.genBool(d - 1)
+	default:
+		g.f("expr:extra-paren")
+		return paren(g.genBool(d - 1))
+	}
+}
+
+func (g *cGen) genExpr(ty Kind, d int) *cExpr {
+	if ty == KBool {
+		return g.genBool(d)
+	}
+	return g.genInt(d)
+}
+
+func (g *cGen) callTo(f *cFunc, d int) *cExpr {
+	e := &cExpr{k: "C", x: f.name, ty: f.ret}
+	for i := range f.params {
+		if f == g.cur && f.params[i] == "d" {
+			e.kids = append(e.kids, mkBin("sub", &cExpr{k: "V", x: "d", ty: KInt}, lit(1), KInt))
+			continue
+		}
+		if f.params[i] == "d" {
+			e.kids = append(e.kids, lit(uint64(g.r.Intn(4))))
+			continue
+		}
+		e.kids = append(e.kids, g.genExpr(f.ptypes[i], min(d-1, 2)))
+	}
+	if g.cur != nil {
+		if g.calls[g.cur.name] == nil {
+			g.calls[g.cur.name] = map[string]bool{}
+		}
+		g.calls[g.cur.name][f.name] = true
+	}
+	g.f(fmt.Sprintf("expr:call%d", len(f.params)))
+	if f == g.cur {
+		g.f("expr:recursive-call")
+	}
+	return e
+}
+
+func (g *cGen) genCall(ty Kind, d int) *cExpr {
+	if g.inLoop > 0 && !g.r.Chance(1, 4) {
+		return nil
+	}
+	var cs []*cFunc
+	for _, f := range g.funcs {
+		if f.ret == ty {
+			cs = append(cs, f)
+		}
+	}
+	if g.cur != nil && g.selfOK && g.cur.ret == ty && g.inLoop == 0 {
+		cs = append(cs, g.cur)
+		g.selfOK = g.r.Bool()
+	}
+	if len(cs) == 0 {
+		return nil
+	}
+	return g.callTo(cs[g.r.Intn(len(cs))], d)
+}
+
+func seq(ss []*cStmt) *cStmt {
+	r := &cStmt{k: "skip"}
+	for i := len(ss) - 1; i >= 0; i-- {
+		r = &cStmt{k: ";", kids: []*cStmt{ss[i], r}}
+	}
+	return r
+}
+
+func (g *cGen) push()        { g.scopes = append(g.scopes, nil) }
+func (g *cGen) decl(v *cVar) { g.scopes[len(g.scopes)-1] = append(g.scopes[len(g.scopes)-1], v) }
+func (g *cGen) pop() []*cStmt {
+	s := g.scopes[len(g.scopes)-1]
+	g.scopes = g.scopes[:len(g.scopes)-1]
+	var res []*cStmt
+	for _, v := range s {
+		if !v.used {
+			res = append(res, &cStmt{k: "discard", e: &cExpr{k: "V", x: v.name, ty: v.ty}})
+		}
+	}
+	return res
+}
+
+func (g *cGen) fresh() string { g.nvar++; return fmt.Sprintf("v%d", g.nvar) }
+
+// block generates a statement list in a fresh scope.
+func (g *cGen) block(n int) *cStmt {
+	g.push()
+	g.depth++
+	var ss []*cStmt
+	for i := 0; i < n && g.budget > 0; i++ {
+		ss = append(ss, g.stmt())
+	}
+	g.depth--
+	ss = append(ss, g.pop()...)
+	return seq(ss)
+}
+
+func (g *cGen) newName(ty Kind) string {
+	// shadow a name of an outer scope sometimes
+	if g.depth > 1 && g.r.Chance(1, 5) {
+		vs := g.vars(ty, true)
+		cur := map[string]bool{}
+		for _, v := range g.scopes[len(g.scopes)-1] {
+			cur[v.name] = true
+		}
+		for _, v := range vs {
+			if !cur[v.name] && v.name != "d" {
+				g.f("stmt:shadow")
+				return v.name
+			}
+		}
+	}
+	return g.fresh()
+}
+
+func (g *cGen) stmt() *cStmt {
+	g.budget--
+	w := []int{12, 10, 6, 4, 4, 8, 6, 3, 3, 3, 3}
+	if g.depth >= 3 {
+		w[5], w[6], w[9] = 2, 1, 0
+	}
+	if g.inLoop == 0 {
+		w[7] = 0
+	}
+	switch g.r.Weighted(w) {
+	case 0: // define
+		ty := KInt
+		if g.r.Chance(1, 4) {
+			ty = KBool
+		}
+		e := g.genExpr(ty, 3)
+		name := g.newName(ty)
+		g.f("stmt:define")
+		s := &cStmt{k: ":=", x: name, e: e}
+		g.decl(&cVar{name: name, ty: ty})
+		return s
+	case 1: // assign
+		ty := KInt
+		if g.r.Chance(1, 5) {
+			ty = KBool
+		}
+		v := g.pick(ty, true)
+		if v == nil {
+			return g.stmtDefault()
+		}
+		g.f("stmt:assign")
+		return &cStmt{k: "=", x: v.name, e: g.genExpr(ty, 3)}
+	case 2: // op-assign
+		v := g.pick(KInt, true)
+		if v == nil {
+			return g.stmtDefault()
+		}
+		v.used = true
+		ops := []string{"add", "sub", "mul", "div", "mod"}
+		op := ops[g.r.Intn(len(ops))]
+		g.f("stmt:op=" + op)
+		e := g.genInt(2)
+		if (op == "div" || op == "mod") && e.cst {
+			e = lit(uint64(g.r.Range(1, 9)))
+		}
+		return &cStmt{k: "op=", x: v.name, op: op, e: e}
+	case 3: // inc/dec
+		v := g.pick(KInt, true)
+		if v == nil {
+			return g.stmtDefault()
+		}
+		v.used = true
+		if g.r.Bool() {
+			g.f("stmt:inc")
+			return &cStmt{k: "++", x: v.name}
+		}
+		g.f("stmt:dec")
+		return &cStmt{k: "--", x: v.name}
+	case 4: // var
+		ty := KInt
+		if g.r.Chance(1, 3) {
+			ty = KBool
+		}
+		name := g.fresh() // never shadows: `var x T = …x…` is the known finding var-decl-shadow-self
+		s := &cStmt{k: "var", x: name, ty: ty}
+		if g.r.Bool() {
+			s.e = g.genExpr(ty, 2)
+			g.f("stmt:var-init")
+		} else {
+			g.f("stmt:var-zero")
+		}
+		g.decl(&cVar{name: name, ty: ty})
+		return s
+	case 5: // if
+		g.f("stmt:if")
+		return g.ifStmt()
+	case 6: // for
+		return g.forStmt()
+	case 7: // break / continue under a condition
+		c := g.genBool(2)
+		k := "brk"
+		if g.r.Bool() {
+			k = "cont"
+		}
+		g.f("stmt:" + k)
+		return &cStmt{k: "if", e: c, kids: []*cStmt{seq([]*cStmt{{k: k}})}, elseK: "none"}
+	case 8: // call statement
+		if len(g.funcs) == 0 || (g.inLoop > 0 && !g.r.Chance(1, 4)) {
+			return g.stmtDefault()
+		}
+		f := g.funcs[g.r.Intn(len(g.funcs))]
+		g.f("stmt:call")
+		if f.ret != KVoid {
+			g.f("stmt:call-drop")
+		}
+		return &cStmt{k: "call", e: g.callTo(f, 2)}
+	case 9: // nested block
+		g.f("stmt:block")
+		return &cStmt{k: "blk", kids: []*cStmt{g.block(g.r.Range(1, 3))}}
+	default: // conditional return
+		if g.cur == nil {
+			return g.stmtDefault()
+		}
+		g.f("stmt:cond-return")
+		return &cStmt{k: "if", e: g.genBool(2), kids: []*cStmt{seq([]*cStmt{g.retStmt()})}, elseK: "none"}
+	}
+}
+
+func (g *cGen) stmtDefault() *cStmt {
+	e := g.genInt(2)
+	name := g.fresh()
+	g.decl(&cVar{name: name, ty: KInt})
+	g.f("stmt:define")
+	return &cStmt{k: ":=", x: name, e: e}
+}
+
+func (g *cGen) retStmt() *cStmt {
+	if g.cur.ret == KVoid {
+		return &cStmt{k: "ret"}
+	}
+	return &cStmt{k: "ret", e: g.genExpr(g.cur.ret, 3)}
+}
+
+func (g *cGen) ifStmt() *cStmt {
+	s := &cStmt{k: "if", e: g.genBool(3), elseK: "none"}
+	s.kids = append(s.kids, g.block(g.r.Range(1, 3)))
+	switch g.r.Intn(4) {
+	case 0:
+		g.f("stmt:else")
+		s.elseK = "else"
+		s.kids = append(s.kids, g.block(g.r.Range(1, 3)))
+	case 1:
+		g.f("stmt:else-if")
+		s.elseK = "elif"
+		s.kids = append(s.kids, g.ifStmt())
+	}
+	return s
+}
+
+func (g *cGen) forStmt() *cStmt {
+	n := uint64(g.r.Range(0, 4))
+	g.push() // the for statement's own scope
+	var pre []*cStmt
+	s := &cStmt{k: "for"}
+	var bodyPrefix []*cStmt
+	switch g.r.Intn(3) {
+	case 0: // three-clause
+		i := g.fresh()
+		g.decl(&cVar{name: i, ty: KInt, ro: true, used: true})
+		g.f("stmt:for-3")
+		post := &cStmt{k: "++", x: i}
+		if g.r.Chance(1, 3) {
+			post = &cStmt{k: "op=", x: i, op: "add", e: lit(uint64(g.r.Range(1, 2)))}
+		}
+		s.kids = []*cStmt{{k: ":=", x: i, e: lit(0)}, post}
+		s.e = mkBin("lt", &cExpr{k: "V", x: i, ty: KInt}, lit(n), KBool)
+	case 1: // condition only, with a fuel counter declared just before the loop
+		k := g.fresh()
+		g.f("stmt:for-cond")
+		pre = append(pre, &cStmt{k: ":=", x: k, e: lit(0)})
+		g.decl(&cVar{name: k, ty: KInt, ro: true, used: true})
+		c := mkBin("lt", &cExpr{k: "V", x: k, ty: KInt}, lit(n), KBool)
+		if g.r.Bool() {
+			c = mkBin("land", c, g.genBool(1), KBool)
+		}
+		s.kids = []*cStmt{{k: "skip"}, {k: "skip"}}
+		s.e = c
+		bodyPrefix = append(bodyPrefix, &cStmt{k: "++", x: k})
+	default: // for { … break }
+		k := g.fresh()
+		g.f("stmt:for-ever")
+		pre = append(pre, &cStmt{k: ":=", x: k, e: lit(0)})
+		g.decl(&cVar{name: k, ty: KInt, ro: true, used: true})
+		s.kids = []*cStmt{{k: "skip"}, {k: "skip"}}
+		bodyPrefix = append(bodyPrefix, &cStmt{k: "++", x: k},
+			&cStmt{k: "if", e: mkBin("gt", &cExpr{k: "V", x: k, ty: KInt}, lit(n), KBool), kids: []*cStmt{seq([]*cStmt{{k: "brk"}})}, elseK: "none"})
+	}
+	g.inLoop++
+	body := g.block(g.r.Range(1, 4))
+	g.inLoop--
+	if len(bodyPrefix) > 0 {
+		body = seq(append(bodyPrefix, unseq(body)...))
+	}
+	s.kids = append(s.kids, body)
+	tail := g.pop()
+	if len(pre) == 0 && len(tail) == 0 {
+		return s
+	}
+	// the fuel counter lives in an enclosing block
+	all := append(pre, s)
+	all = append(all, tail...)
+	return &cStmt{k: "blk", kids: []*cStmt{seq(all)}}
+}
+
+func unseq(s *cStmt) []*cStmt {
+	var r []*cStmt
+	for s.k == ";" {
+		r = append(r, s.kids[0])
+		s = s.kids[1]
+	}
+	return r
+}
+
+func (g *cGen) function(f *cFunc, budget int) {
+	g.cur = f
+	g.nvar = 0
+	g.scopes = nil
+	g.push()
+	for i, p := range f.params {
+		g.decl(&cVar{name: p, ty: f.ptypes[i], used: true, ro: p == "d"})
+	}
+	g.budget = budget
+	g.depth = 0
+	g.inLoop = 0
+	var ss []*cStmt
+	hasD := len(f.params) > 0 && f.params[len(f.params)-1] == "d"
+	if hasD {
+		g.selfOK = false
+		old := g.funcs
+		g.funcs = nil
+		base := g.retStmt()
+		g.funcs = old
+		ss = append(ss, &cStmt{k: "if", e: mkBin("le", &cExpr{k: "V", x: "d", ty: KInt}, lit(0), KBool), kids: []*cStmt{seq([]*cStmt{base})}, elseK: "none"})
+		g.selfOK = true
+	}
+	g.push()
+	g.depth++
+	for i := 0; i < budget && g.budget > 0; i++ {
+		ss = append(ss, g.stmt())
+	}
+	if f.ret != KVoid || g.r.Chance(1, 3) {
+		ss = append(ss, g.retStmt())
+	}
+	g.depth--
+	// unused locals of the body scope: the discards must come before the final return
+	tail := g.pop()
+	if len(tail) > 0 {
+		last := ss[len(ss)-1]
+		if last.k == "ret" {
+			ss = append(append(ss[:len(ss)-1:len(ss)-1], tail...), last)
+		} else {
+			ss = append(ss, tail...)
+		}
+	}
+	g.pop()
+	f.body = seq(ss)
+	g.cur = nil
+	g.selfOK = false
+}
+
+func genCoreProgram(r *prng.R, k int, ntuples int) *Prog {
+	g := &cGen{r: r, feat: map[string]int{}, calls: map[string]map[string]bool{}}
+	cp := &CoreProg{}
+	nh := r.Intn(4)
+	kinds := []Kind{KInt, KInt, KInt, KBool}
+	for i := 0; i < nh; i++ {
+		f := &cFunc{name: fmt.Sprintf("¶_h%d", i)}
+		np := r.Intn(4)
+		for j := 0; j < np; j++ {
+			f.params = append(f.params, fmt.Sprintf("a%d", j))
+			f.ptypes = append(f.ptypes, kinds[r.Intn(len(kinds))])
+		}
+		switch r.Intn(5) {
+		case 0:
+			f.ret = KVoid
+		case 1:
+			f.ret = KBool
+		default:
+			f.ret = KInt
+		}
+		if f.ret != KVoid && np < 3 && r.Chance(1, 3) {
+			f.params = append(f.params, "d")
+			f.ptypes = append(f.ptypes, KInt)
+			g.f("prog:recursive")
+		}
+		g.function(f, r.Range(2, 6))
+		g.funcs = append(g.funcs, f)
+		cp.funcs = append(cp.funcs, f)
+	}
+	p := &Prog{K: k, Kind: "core", Feat: g.feat, Core: cp, NParams: map[string]int{}}
+	ne := r.Range(1, 2)
+	var entries []*cFunc
+	for i := 0; i < ne; i++ {
+		f := &cFunc{name: fmt.Sprintf("§_F%d", i), ret: KInt}
+		if r.Chance(1, 4) {
+			f.ret = KBool
+		}
+		np := r.Intn(4)
+		for j := 0; j < np; j++ {
+			f.params = append(f.params, fmt.Sprintf("a%d", j))
+			f.ptypes = append(f.ptypes, kinds[r.Intn(len(kinds))])
+		}
+		g.function(f, r.Range(3, 9))
+		cp.funcs = append(cp.funcs, f)
+		entries = append(entries, f)
+	}
+	// every helper must be reachable from an exported function (the compiler drops unused functions)
+	reach := map[string]bool{}
+	var visit func(n string)
+	visit = func(n string) {
+		if reach[n] {
+			return
+		}
+		reach[n] = true
+		for c := range g.calls[n] {
+			visit(c)
+		}
+	}
+	for _, e := range entries {
+		visit(e.name)
+	}
+	for i := len(cp.funcs) - 1; i >= 0; i-- {
+		h := cp.funcs[i]
+		if reach[h.name] || strings.HasPrefix(h.name, "§") {
+			continue
+		}
+		// call it first thing in the first entry, arguments are literals
+		e := &cExpr{k: "C", x: h.name, ty: h.ret}
+		for j := range h.params {
+			if h.ptypes[j] == KBool {
+				e.kids = append(e.kids, &cExpr{k: "T", cst: true, ty: KBool})
+			} else {
+				e.kids = append(e.kids, lit(uint64(r.Intn(4))))
+			}
+		}
+		entries[0].body = &cStmt{k: ";", kids: []*cStmt{{k: "call", e: e}, entries[0].body}}
+		if g.calls[entries[0].name] == nil {
+			g.calls[entries[0].name] = map[string]bool{}
+		}
+		g.calls[entries[0].name][h.name] = true
+		visit(h.name)
+		g.f("prog:forced-call")
+	}
+	rnP := func(s string) string { return rename(s, k, false) }
+	rnC := func(s string) string { return rename(s, k, true) }
+	var pl, ch strings.Builder
+	for _, f := range cp.funcs {
+		pl.WriteString(f.src(false, rnP))
+		ch.WriteString(f.src(true, rnC))
+		p.NParams[rnP(f.name)] = len(f.params)
+	}
+	p.Plain, p.Checked = pl.String(), ch.String()
+	p.CoreTokens = cp.tokens(rnP)
+	for _, f := range cp.funcs {
+		p.CoreFuncs = append(p.CoreFuncs, rnP(f.name))
+	}
+	for _, f := range entries {
+		var ks []Kind
+		ks = append(ks, f.ptypes...)
+		p.Entries = append(p.Entries, &Entry{Name: rnP(f.name), Params: ks, Ret: f.ret, Tuples: genTuples(r, ks, ntuples)})
+	}
+	return p
+}
+
+func argWords(e *Entry, t []int64) string {
+	var ws []string
+	for i, x := range t {
+		if e.Params[i] == KBool {
+			if x != 0 {
+				ws = append(ws, "bt")
+			} else {
+				ws = append(ws, "bf")
+			}
+		} else {
+			ws = append(ws, fmt.Sprintf("i%d", x))
+		}
+	}
+	return strings.Join(ws, " ")
+}
+
+// emitCore writes the correspondence lines of a core program: the model compiler must produce the same
+// bytes and method offsets, the model VM and the big-step semantics the same results as the real VM.
+func emitCore(o *hx.Out, p *Prog, cr *compRes, gores map[string]goRes) {
+	if p.Core == nil {
+		return
+	}
+	o.Line(p.CoreTokens, hx.Hex(cr.script))
+	offs := map[string]int{}
+	for _, m := range cr.methods {
+		offs[m.id] = m.start
+	}
+	for _, f := range p.CoreFuncs {
+		if off, ok := offs[f]; ok {
+			o.Line("offset "+f, fmt.Sprint(off))
+		} else {
+			o.Line("offset "+f, "none")
+		}
+	}
+	for fi, e := range p.Entries {
+		ret := "int"
+		if e.Ret == KBool {
+			ret = "bool"
+		}
+		for ti, t := range e.Tuples {
+			tk := fmt.Sprintf("%d %d", fi, ti)
+			g, have := gores[fmt.Sprintf("%d %s", p.K, tk)]
+			if !have || g.long {
+				continue
+			}
+			args := argWords(e, t)
+			if g.ovf {
+				o.Count("core:ovf-lines")
+				o.Line(strings.TrimSpace("ovf "+e.Name+" "+args), "overflow")
+				continue
+			}
+			v, ok := cr.vmres[tk]
+			if !ok {
+				continue
+			}
+			obs := v
+			if strings.HasPrefix(v, "ok ") {
+				obs = "halt " + v[3:]
+			}
+			o.Count("core:run-lines")
+			o.Line(strings.TrimSpace("run "+e.Name+" "+ret+" "+args), obs)
+			o.Line(strings.TrimSpace("eval "+e.Name+" "+args), obs)
+		}
+	}
+}
